@@ -535,8 +535,8 @@ static void do_op(struct op *p)
 	} else if (!strcmp(n, "ev_unreg")) {
 		OBJ(K_EV);
 		if (!o->reg || o->inpost) { skip(n, id); goto out; }
+		o->reg = 0;	/* from now on no thread of the program posts this event */
 		iv_event_unregister(o->mem);
-		o->reg = 0;
 		alog(n, id, 0, 0, 0, 0, 0);
 		quarantine(K_EV, id);
 	} else if (!strcmp(n, "ev_post")) {
@@ -561,8 +561,8 @@ static void do_op(struct op *p)
 	} else if (!strcmp(n, "raw_unreg")) {
 		OBJ(K_RAW);
 		if (!o->reg || o->inpost) { skip(n, id); goto out; }
-		iv_event_raw_unregister(o->mem);
 		o->reg = 0;
+		iv_event_raw_unregister(o->mem);
 		alog(n, id, 0, 0, 0, 0, 0);
 		quarantine(K_RAW, id);
 	} else if (!strcmp(n, "raw_post")) {
